@@ -358,28 +358,39 @@ func run(prop *property, tier int, tierName string, seed int64, replay, scratch 
 					if ft <= 0 {
 						return
 					}
-					fctx, fcancel := context.WithTimeout(context.Background(), ft+5*time.Minute)
-					fargs := []string{"-test.run", "^$", "-test.fuzz", "^" + p.fuzz + "$", "-test.fuzztime", ft.String(),
-						"-test.fuzzcachedir", filepath.Join(dir, "fuzzcache"), "-test.parallel", "8", "-test.timeout", (ft + 4*time.Minute).String()}
-					fcmd := exec.CommandContext(fctx, bin, fargs...)
-					fcmd.Dir = dir
-					fenv := baseEnv()
-					fenv = append(fenv, "VERIF_TIER="+tierName, "VERIF_SCRATCH="+filepath.Join(dir, "scratch-fuzz"), "VERIF_BIN="+binDir, "VERIF_PART="+p.name, "VERIF_FUZZING=1")
-					fenv = append(fenv, p.env[tier]...)
-					fcmd.Env = fenv
-					var fout bytes.Buffer
-					fcmd.Stdout, fcmd.Stderr = &fout, &fout
-					ferr := fcmd.Run()
-					fcancel()
-					if m := regexp.MustCompile(`execs: (\d+)`).FindAllStringSubmatch(fout.String(), -1); len(m) > 0 {
-						fuzzExecs, _ = strconv.ParseInt(m[len(m)-1][1], 10, 64)
-					}
-					if ferr != nil {
-						if saved, _ := filepath.Glob(filepath.Join(dir, "testdata", "fuzz", p.fuzz, "*")); len(saved) > 0 {
-							fuzzNote = "native fuzzing stopped with a failing input (re-run in-process below): " + lastLines(fout.String(), 6)
-						} else {
-							fuzzNote = "BROKEN native fuzzing run ended with an error but saved no failing input: " + lastLines(fout.String(), 6)
+					// the engine gives up on a worker that does not answer in time ("fuzzing process hung or
+					// terminated unexpectedly") — on a loaded machine that happens without any failing
+					// input. Such a run is repeated (twice at most); a crash of the code under test on a
+					// corpus entry shows again in the in-process run below either way.
+					for attempt := 0; attempt < 3; attempt++ {
+						fuzzNote = ""
+						fctx, fcancel := context.WithTimeout(context.Background(), ft+5*time.Minute)
+						fargs := []string{"-test.run", "^$", "-test.fuzz", "^" + p.fuzz + "$", "-test.fuzztime", ft.String(),
+							"-test.fuzzcachedir", filepath.Join(dir, "fuzzcache"), "-test.parallel", "8", "-test.timeout", (ft + 4*time.Minute).String()}
+						fcmd := exec.CommandContext(fctx, bin, fargs...)
+						fcmd.Dir = dir
+						fenv := baseEnv()
+						fenv = append(fenv, "VERIF_TIER="+tierName, "VERIF_SCRATCH="+filepath.Join(dir, "scratch-fuzz"), "VERIF_BIN="+binDir, "VERIF_PART="+p.name, "VERIF_FUZZING=1")
+						fenv = append(fenv, p.env[tier]...)
+						fcmd.Env = fenv
+						var fout bytes.Buffer
+						fcmd.Stdout, fcmd.Stderr = &fout, &fout
+						ferr := fcmd.Run()
+						fcancel()
+						if m := regexp.MustCompile(`execs: (\d+)`).FindAllStringSubmatch(fout.String(), -1); len(m) > 0 {
+							fuzzExecs, _ = strconv.ParseInt(m[len(m)-1][1], 10, 64)
 						}
+						if ferr != nil {
+							if saved, _ := filepath.Glob(filepath.Join(dir, "testdata", "fuzz", p.fuzz, "*")); len(saved) > 0 {
+								fuzzNote = "native fuzzing stopped with a failing input (re-run in-process below): " + lastLines(fout.String(), 6)
+							} else {
+								fuzzNote = "BROKEN native fuzzing run ended with an error but saved no failing input: " + lastLines(fout.String(), 6)
+							}
+						}
+						if !strings.HasPrefix(fuzzNote, "BROKEN") || !strings.Contains(fuzzNote, "hung or terminated unexpectedly") {
+							break
+						}
+						os.RemoveAll(filepath.Join(dir, "fuzzcache"))
 					}
 					os.RemoveAll(filepath.Join(dir, "fuzzcache"))
 					p.run = "^" + p.fuzz + "$"
